@@ -89,12 +89,15 @@ let () = run_lines (fun toks ->
      | _ -> "BAD-LINE")
   | "fixed" :: rest ->
     let (p, r, _) = parse_sys rest in
-    let v = string_of_z (Model.fixed_RnsToRing p r) in v ^ " " ^ v
+    let v = string_of_z (Model.fixed_RnsToRing p r) in
+    let t = Model.fixed_tree p in
+    v ^ " " ^ v ^ " | " ^ string_of_int (List.length t) ^ " "
+    ^ String.concat "" (List.map (fun lv -> string_of_int (List.length lv) ^ " " ^ grp lv) t)
   | ["cra"; variant; m; d; a; e] ->
     let f = (match variant with
         | "reduce" -> Model.cra_reduce | "noreduce" -> Model.cra_noreduce | "fixed" -> Model.cra_reduce_fixed
         | s -> failwith ("variant " ^ s)) in
-    let v = string_of_z (f (zs m) (zs d) (zs a) (zs e)) in v ^ " " ^ v
+    let v = string_of_z (f (zs m) (zs d) (zs a) (zs e)) in v ^ " " ^ v ^ " " ^ v
   | "lift" :: variant :: rest ->
     let (p, r, _) = parse_sys rest in
     let f = (match variant with "reduce" -> Model.cra_reduce | "fixed" -> Model.cra_reduce_fixed | s -> failwith ("variant " ^ s)) in
